@@ -4,11 +4,16 @@
 set -e
 cd "$(dirname "$0")"
 export CARGO_NET_OFFLINE=true
+# start from a clean slate: a copy of this directory may carry half-written build output
+find coq -name '*.vo' -o -name '*.vok' -o -name '*.vos' -o -name '*.glob' -o -name '*.aux' | xargs -r rm -f
+rm -f coq/Makefile coq/Makefile.conf coq/.Makefile.d coq/model.ml coq/model.mli coq/cmodel.ml coq/cmodel.mli
+rm -rf _build coq/Generated
 mkdir -p _build evidence replay
 python3 translator/rs2v.py "${VERIF_REPO:-/repo}" coq/Generated || true
 cd coq
 coq_makefile -f _CoqProject -o Makefile >/dev/null
-timeout 3000 make -j16 2>&1 | tail -5
+timeout 3000 make -j16 > ../_build/coq_make.log 2>&1 || { grep -B2 -A12 '^Error' ../_build/coq_make.log | head -60; echo 'setup: Coq build FAILED'; }
+grep -c 'Closed under the global context' ../_build/coq_make.log
 cd ..
 python3 - <<'PY'
 import sys
